@@ -19,6 +19,17 @@ func (x *Exec) step(st *State, fr *Frame, ins ssa.Instruction) bool {
 		}
 	case *ssa.Alloc:
 		pt := in.Type().Underlying().(*types.Pointer).Elem()
+		if o, ok := sortOverride[typeKey(in.Type())]; ok {
+			// new(big.Int), new(big.Rat): value-modelled library types
+			fr.env[in] = Val{T: x.S.ZeroOfSort(o, nil), Typ: in.Type()}
+			if o == SMInt {
+				fr.env[in] = Val{T: mkMInt(IntLit(0)), Typ: in.Type()}
+			}
+			if o == "Rat" {
+				fr.env[in] = Val{T: Term{"(mk-rat false 0 1)", "Rat"}, Typ: in.Type()}
+			}
+			break
+		}
 		r := x.newRef(st, in.Comment)
 		v := Val{T: r, Typ: in.Type(), LV: &LVal{Kind: "obj", Root: r, RootT: pt}}
 		// zero-initialise
@@ -313,6 +324,7 @@ func (x *Exec) unop(st *State, fr *Frame, in *ssa.UnOp) Val {
 			}
 		}
 		x.assumeTyped(st, res)
+		x.sawRef(st, res)
 		return res
 	case token.NOT:
 		return Val{T: Not(v.T), Typ: in.Type()}
